@@ -66,6 +66,7 @@ def match_paren(s, i):
 
 
 # ----------------------------------------------------------------------------- types
+CLOSURES = {}  # closure type string -> leaf counts of the captured upvars (learnt from the aggregate that builds it)
 STRUCTS = {}   # last path segment -> (generic params, [(field name, field type)])
 BUILTIN_STRUCTS = {
     'NonNull': (['T'], [('pointer', '*const T')]),
@@ -263,7 +264,9 @@ def _nleaves(t):
         return sum(nleaves(x) for x in split_top(t[1:-1]))
     if t.startswith('fn(') or t.startswith('for<') or t.startswith('unsafe fn') or t.startswith('extern '):
         return 1
-    if '{closure' in t or t.startswith('fn item') or t.startswith('{'):
+    if '{closure' in t:
+        return sum(CLOSURES.get(t, []))
+    if t.startswith('fn item') or t.startswith('{'):
         return 0
     name, args = ty_split_adt(t)
     if name == 'Option':
@@ -294,6 +297,8 @@ def field_types(t):
 
 
 def field_off(t, k):
+    if '{closure' in t:
+        return sum(CLOSURES.get(norm_ty(t), [])[:k])
     fs = field_types(t)
     return sum(nleaves(f) for f in fs[:k])
 
@@ -542,9 +547,13 @@ def parse_rvalue(rv):
     m = re.match(r'^([\w:]+(?:::<.*>)?)\((.*)\)$', rv, re.S)
     if m:
         return ('agg', [parse_operand(x) for x in split_top(m.group(2))])
-    m = re.match(r'^\{closure@[^}]*\}$', rv)
+    m = re.match(r'^(\{closure@[^}]*\})(?: \{ (.*) \})?$', rv, re.S)
     if m:
-        return ('agg', [])
+        ops = []
+        if m.group(2):
+            for x in split_top(m.group(2)):
+                ops.append(parse_operand(x.split(':', 1)[1]))
+        return ('closure', norm_ty(m.group(1)), ops)
     raise MirError('rvalue? ' + rv)
 
 
